@@ -1,8 +1,1 @@
 package main
-
-func (c *checker) heapCheck() (map[string]any, int, int) { c.broken = true; return nil, 0, 0 }
-func (c *checker) raceCheck() (map[string]any, int, int) { c.broken = true; return nil, 0, 0 }
-func (c *checker) heapReplay(string) int                  { return 2 }
-func (c *checker) raceReplay(string, *ReplayFile) int     { return 2 }
-func heapWorkerMain([]string) int                         { return 2 }
-func raceWorkerMain([]string) int                         { return 2 }
